@@ -141,11 +141,16 @@ inline size_t real_term_budget(const TermSpec& t)
     if (t.type == 0) return ctpg::char_term::dfa_size;
     size_t r = 0;
     if (t.type == 1) { dispatch_len<MAX_STR>(t.data.size(), [&](auto ic) { r = ctpg::string_term<decltype(ic)::value + 1>::dfa_size; }); return r; }
-    vb::HeapCBuffer buf(t.data);
-    ctpg::regex::dfa_size_analyzer an; ctpg::utils::no_stream ns;
-    auto res = ctpg::regex::regex_parser::regex_parser_object.context_parse(an, ctpg::parse_options{}.set_skip_whitespace(false), buf, ns);
-    if (!res.has_value()) throw std::runtime_error("invalid regex");
-    return res.value().n;     // what analyze_dfa_size returns
+    // the real regex::analyze_dfa_size (what regex_term<P>::dfa_size is), instantiated per pattern length
+    bool done = dispatch_len<MAX_PAT>(t.data.size(), [&](auto ic)
+    {
+        constexpr size_t N = decltype(ic)::value + 1;
+        char arr[N]; std::memcpy(arr, t.data.data(), N - 1); arr[N - 1] = 0;
+        const char (&ref)[N] = arr;
+        r = ctpg::regex::analyze_dfa_size(ref);
+    });
+    if (!done) throw std::runtime_error("pattern too long for dispatch");
+    return r;
 }
 inline void real_lexer_dfa(rx::Dfa& d)
 {
@@ -219,7 +224,9 @@ static LCase gen_lcase(Choice& ch)
     LCase c;
     static const char* keywords[] = {"if", "in", "int", "i", "ab", "abab", "else", "a", "for", "<=", "<<", "<<=", "<", "==", "=", "a b"};
     static const char* patterns[] = {"[a-z]+", "[a-i][a-z0-9]*", "[0-9]+", "[0-9]+\\.[0-9]+", "[a-zA-Z_][a-zA-Z_0-9]*", "\"[^\"]*\"", "'[^']*'", "[1-9][0-9]*", "0|[1-9][0-9]*",
-                                     "(a|b)+", "a+b?", "[a-c]+d", "//[^\\x0a]*", "/\\*([^*]|\\*+[^*/])*\\*+/", "#[^#]*#", "(ab)+", "a(b|c)*d", "[ \\x09]+", "\\x0a", "x{3}", "[0-9a-f]{2}", "<[a-z]*>", "i(f|n)"};
+                                     "(a|b)+", "a+b?", "[a-c]+d", "//[^\\x0a]*", "/\\*([^*]|\\*+[^*/])*\\*+/", "#[^#]*#", "(ab)+", "a(b|c)*d", "[ \\x09]+", "\\x0a", "x{3}", "[0-9a-f]{2}", "<[a-z]*>", "i(f|n)",
+                                     // ranges that cross 0x7f/0x80 or lie above it (string bodies, UTF-8), and literal blanks outside a set
+                                     "\"[\\x20-\\x21\\x23-\\xff]*\"", "[^\\x00-\\x20]+", "[\\x7e-\\x81]", "\\xc3[\\x80-\\xbf]", "[a-\\xff]+;", "[0-9]+ [a-z]+", "a b*", "= ="};
     static const char* nullable[] = {"[0-9]*", "a?", "(ab)*", "x{0}"};
     static const char chars[] = {'a', 'i', '+', '-', ';', ',', '(', ')', '<', '=', '0', ' ', '\n', 'x', '"'};
     int n = 2 + int(ch.below(6)); if (n > lx::NTERMS) n = lx::NTERMS;
@@ -231,7 +238,7 @@ static LCase gen_lcase(Choice& ch)
         {
         case 0: t.type = 0; t.data = std::string(1, chars[ch.below(sizeof chars)]); break;
         case 1: t.type = 1; t.data = keywords[ch.below(16)]; break;
-        case 2: t.type = 2; t.data = patterns[ch.below(23)]; break;
+        case 2: t.type = 2; t.data = patterns[ch.below(31)]; break;
         case 3:
         {   // small random pattern over a tiny alphabet
             t.type = 2; std::string s; int k = 1 + int(ch.below(3));
@@ -529,7 +536,7 @@ template<LProp PROP>
 struct LP
 {
     using Case = LCase;
-    static const char* id() { return PROP == LC04 ? (eng::args().prop == "C09l" ? "C09l" : "C04") : PROP == LC10 ? "C10l" : PROP == LC16 ? "C16l" : "C12l"; }
+    static const char* id() { return PROP == LC04 ? (eng::args().prop == "C09l" ? "C09l" : eng::args().prop == "C03l" ? "C03l" : "C04") : PROP == LC10 ? "C10l" : PROP == LC16 ? "C16l" : "C12l"; }
     static Case gen(Choice& ch) { return gen_lcase(ch); }
     static vj::Value to_json(const Case& c) { return lcase_json(c); }
     static Case from_json(const vj::Value& v) { return lcase_from(v); }
@@ -543,7 +550,7 @@ int main(int argc, char** argv)
     int rc = 2;
     eng::on_big_stack([&]
     {
-        if (a.prop == "C04" || a.prop == "C09l") rc = eng::run_property<LP<LC04>>(a);     // C09l: the same oracle serves C09's 'Unexpected character' clause for real lexers
+        if (a.prop == "C04" || a.prop == "C09l" || a.prop == "C03l") rc = eng::run_property<LP<LC04>>(a);   // C03l: a regex TERM of a parser (lexer path add_term_data_to_dfa) matches its pattern's language     // C09l: the same oracle serves C09's 'Unexpected character' clause for real lexers
         else if (a.prop == "C10l") rc = eng::run_property<LP<LC10>>(a);
         else if (a.prop == "C12l") rc = eng::run_property<LP<LC12>>(a);
         else if (a.prop == "C16l") rc = eng::run_property<LP<LC16>>(a);
